@@ -714,7 +714,7 @@ def r6_reversed_table(ctx, chk, rule="C07.6"):
     if formC is not None:
         Lm, sd = formC
         cw = fn_of("add_missing_states").where(Lm.node)
-        if Lm.has_break or Lm.has_return or Lm.cont != FALSE or sd[0] != TRUE:
+        if Lm.has_break or Lm.has_return or sd[0] != TRUE:
             chk.violation(rule, cw, "the completion loop does not reach every state (early exit / conditional)", expected="every state", found=show(sd[0]), construct="add_missing_states early exit")
             return
         if Lm.source not in full_range:
@@ -857,7 +857,7 @@ def _single_pass(ctx, chk, rule, sx, sp, tl, f, where):
     """grouping without an intermediate pair list: one append of the source under the target's key per transition"""
     Lo, Li, d = sp
     w = f.where(Li.node)
-    if not Lo.whole or Lo.has_break or Lo.has_return or Lo.cont != FALSE or not Li.whole or Li.has_break or Li.has_return or Li.cont != FALSE:
+    if not Lo.whole or Lo.has_break or Lo.has_return or not Li.whole or Li.has_break or Li.has_return:
         chk.violation(rule, w, "the loops over the states / their transitions do not process every transition (slice / break / continue)", expected="one append per transition",
                       found=norm_stmt(Li.node)[:80], construct="single-pass grouping partial")
         return False
@@ -882,7 +882,7 @@ def _completion_AB(ctx, chk, rule, sx, Lm, v, full_range, f, fn_of):
     up = Lm.update[v]
     base_dict = Lm.init[v]
     cw = fn_of("add_missing_states").where(Lm.node)
-    if Lm.has_break or Lm.has_return or Lm.cont != FALSE:
+    if Lm.has_break or Lm.has_return:
         chk.violation(rule, cw, "the completion loop exits early: some state has no entry in the reversed table", expected="every state", found="early exit", construct="add_missing_states early exit")
         return None
     formA = Lm.source in full_range and up == simp(("ite", simp(("cmp", "notin", e, acc)), ("setitem", acc, e, ("list", ())), acc))
@@ -894,6 +894,34 @@ def _completion_AB(ctx, chk, rule, sx, Lm, v, full_range, f, fn_of):
         if Lc.elt == ce and Lc.filters == [simp(("cmp", "notin", ce, base_dict))] and up == ("setitem", acc, e, ("list", ())):
             formB = Lc.source in full_range
             rng = Lc.source
+    if not (formA or formB) and up == ("setitem", acc, e, ("list", ())):
+        # the missing states collected first, by a loop (`missing = []; for s in range(n): if s not in d: missing.append(s)`) ...
+        src_t = Lm.source
+        while src_t[0] == "call" and src_t[1] in ("sorted", "list", "tuple") and len(src_t[2]) == 1 and not src_t[3]:
+            src_t = src_t[2][0]
+        if src_t[0] == "res" and src_t[1] in sx.loops and sx.loops[src_t[1]].kind == "for":
+            Lc = sx.loops[src_t[1]]
+            fo = classify(Lc).get(src_t[2])
+            ce = ("elem", Lc.id)
+            guard = simp(("cmp", "notin", ce, base_dict))
+            if fo is not None and fo.kind == "COLLECT" and fo.term == ce and Lc.init.get(src_t[2]) == ("list", ()) and not Lc.has_break and not Lc.has_return and Lc.whole \
+                    and simp(("and", (Lc.filter, getattr(fo, "own_filter", None) or TRUE))) == guard:
+                formB = Lc.source in full_range
+                rng = Lc.source
+        # ... or as a set difference: set(range(n)) - <the keys of d>
+        def _range_set(t):
+            return t[0] == "call" and t[1] in ("set", "frozenset") and len(t[2]) == 1 and t[2][0] in full_range
+
+        def _keys_of(t):
+            if t == base_dict:
+                return True
+            if t[0] == "call" and t[1] in ("set", "frozenset", "list") and len(t[2]) == 1:
+                return _keys_of(t[2][0])
+            return t[0] == "mcall" and t[2] == "keys" and t[1] == base_dict
+        if src_t[0] == "mcall" and src_t[2] == "difference" and len(src_t[3]) == 1 and _range_set(src_t[1]) and _keys_of(src_t[3][0]):
+            formB, rng = True, src_t[1][2][0]
+        if src_t[0] == "sub" and _range_set(src_t[1]) and _keys_of(src_t[2]) and src_t[2] != base_dict:
+            formB, rng = True, src_t[1][2][0]
     if not (formA or formB):
         if rng[0] == "call" and rng[1] == "range" and rng not in full_range:
             chk.violation(rule, cw, "the completion loop covers `%s`, not range(len(transition_list)): some state has no entry in the reversed table" % show(rng),
@@ -933,10 +961,16 @@ def _grouping_and_pairs(ctx, chk, rule, sx, base_dict, tl, f, fn_of, where):
         good = [x for x in appends if x[0] == TRUE and x[2][1] == ("mcall", base_dict, "setdefault", (k, ("list", ())), ()) and x[2][3] == (val,)]
         ok_group = len(good) == 1 and len(appends) == 1
     gwhere = gw_f.where(Lg.node)
-    if not Lg.whole or Lg.has_break or Lg.has_return or Lg.cont != FALSE:
+    if not Lg.whole or Lg.has_break or Lg.has_return:
         chk.violation(rule, gwhere, "the grouping loop does not process every reversed pair (slice / break / continue)", expected="one append per pair", found=norm_stmt(Lg.node),
                       construct="grouping loop partial")
         return
+    if not ok_group and base_dict[0] == "res":
+        # the same update written differently (`if k in d: d[k].append(v) else: d[k] = [v]`, get / setdefault ...): judged by what the
+        # entry of k is after one pair, when k already had an entry and when it had none
+        pres, absent = _entry_after(Lg, gv, k, True), _entry_after(Lg, gv, k, False)
+        if pres == ("OLD", val) and absent == ("NEW", val):
+            ok_group = True
     if not ok_group:
         if appends:
             a0 = appends[0]
